@@ -233,6 +233,7 @@ def run(ctx: Ctx) -> None:
     _memo.rule_isinstance_on_class(ctx, ['graphiq/solvers/time_reversed_solver.py', 'graphiq/backends/stabilizer/functions/stabilizer.py'])
     _memo.rule_zip_truncation(ctx, ['graphiq/solvers/time_reversed_solver.py', 'graphiq/backends/stabilizer/functions/stabilizer.py'])
     _memo.rule_search_fallthrough(ctx, ['graphiq/solvers/time_reversed_solver.py', 'graphiq/backends/stabilizer/functions/stabilizer.py'])
+    _memo.rule_zip_pairing(ctx, ['graphiq/solvers/time_reversed_solver.py', 'graphiq/backends/stabilizer/functions/stabilizer.py'])
     repo = ctx.repo
     handled = mirror.rule_mirror(ctx)
     mirror.rule_guarded_first(ctx)
